@@ -260,6 +260,9 @@ C02_UNITS = [
     pkunit("handle3", parker_co=True, kind="handle", rounds=["park", "tpark", "park"], unparkers=2, unparks_each=2),
     pkunit("cancel1", parker_co=True, kind="blocker", rounds=["park"], unparkers=1, unparks_each=1, canceller=True),
     pkunit("thread2", parker_co=False, kind="blocker", rounds=["park", "tpark"], unparkers=2, unparks_each=1, n=200),
+    # code -> spec: the point traces of these explored executions are validated by TLC against Park.tla (TVPark.tla)
+    dict(pkunit("handle_tv", parker_co=True, kind="handle", rounds=["tpark", "park"], unparkers=2, unparks_each=1, canceller=True, ao=False, n=400),
+         tv_custom=("spec/l1/TVPark.tla", "spec/l1/TVPark.cfg", "park")),
 ]
 PROPS["C02"] = dict(assumptions=["run queues deliver every scheduled coroutine (C01, C03, C04); timer contract (C08)"], units=C02_UNITS)
 # (registered below, once C15's units exist: a park must not return a result left behind by an earlier occupant of the stack)
@@ -335,6 +338,7 @@ def _pick(pid, names, prefix):
 C09_UNITS = [
     # the cancel protocol itself at atomic-step granularity (canceller as an actor): Park.tla + the park scenario
     dict(name="park_spec", tlc=[("spec/l1/MCPark.tla", "spec/l1/MCPark.cfg")]),
+    [u for u in C02_UNITS if u["name"] == "handle_tv"][0],
     pkunit("cancel_blocker", parker_co=True, kind="blocker", rounds=["park"], unparkers=1, unparks_each=1, canceller=True),
     pkunit("cancel_blocker_alone", parker_co=True, kind="blocker", rounds=["park"], unparkers=0, unparks_each=0, canceller=True),
     pkunit("cancel_handle", parker_co=True, kind="handle", rounds=["park", "tpark"], unparkers=1, unparks_each=1, canceller=True),
@@ -431,6 +435,7 @@ C08_UNITS = [
     dict(name="timer_spec", tlc=[("spec/l1/MCTimer.tla", "spec/l1/MCTimer_friendly.cfg")]),
     dict(name="timer_spec_adversarial", tier="thorough", tlc=[("spec/l1/MCTimer.tla", "spec/l1/MCTimer_adversarial.cfg")]),
     # the park protocol at atomic-step granularity with nobody but the timer to end the wait: every duration
+    [u for u in C02_UNITS if u["name"] == "handle_tv"][0],
     pkunit("tpark_10ms", parker_co=True, kind="blocker", rounds=["tpark", "tpark"], unparkers=0, unparks_each=0, n=300),
     pkunit("tpark_500us", parker_co=True, kind="blocker", rounds=["tpark", "tpark"], unparkers=0, unparks_each=0, dur_ns=500_000, n=200),
     pkunit("tpark_1500us", parker_co=True, kind="blocker", rounds=["tpark"], unparkers=1, unparks_each=1, dur_ns=1_500_000, n=200),
